@@ -418,11 +418,17 @@ func Zoo() *SchemaDesc {
 type Config struct {
 	Modes   map[string]Mode
 	Include func(typ, field string) bool // nil = everything
+	// Service, when non-empty, builds a federated service schema: named
+	// schema, every object registered with FetchObjectFromKeys.
+	Service string
 }
 
 // Build registers the zoo with schemabuilder under cfg.
 func Build(sd *SchemaDesc, cfg Config, env *Env) *schemabuilder.Schema {
 	s := schemabuilder.NewSchema()
+	if cfg.Service != "" {
+		s = schemabuilder.NewSchemaWithName(cfg.Service)
+	}
 	RegisterInto(s, sd, cfg, env)
 	return s
 }
@@ -430,11 +436,37 @@ func Build(sd *SchemaDesc, cfg Config, env *Env) *schemabuilder.Schema {
 // RegisterInto registers the zoo's objects and fields into s.
 func RegisterInto(s *schemabuilder.Schema, sd *SchemaDesc, cfg Config, env *Env) {
 	s.Enum(Color(0), map[string]Color{"RED": Red, "GREEN": Green, "BLUE": Blue})
+	var nodeOpts, leafOpts, itemOpts []schemabuilder.ObjectOption
+	if cfg.Service != "" {
+		// shadow objects are rebuilt from their federated keys (all struct
+		// fields) and re-attached to the request's world
+		nodeOpts = append(nodeOpts, schemabuilder.FetchObjectFromKeys(func(ctx context.Context, args struct{ Keys []*Node }) []*Node {
+			out := make([]*Node, len(args.Keys))
+			for i, k := range args.Keys {
+				out[i] = &Node{Id: k.Id, W: worldOf(ctx)}
+			}
+			return out
+		}))
+		leafOpts = append(leafOpts, schemabuilder.FetchObjectFromKeys(func(ctx context.Context, args struct{ Keys []*Leaf }) []*Leaf {
+			out := make([]*Leaf, len(args.Keys))
+			for i, k := range args.Keys {
+				out[i] = &Leaf{Id: k.Id, W: worldOf(ctx)}
+			}
+			return out
+		}))
+		itemOpts = append(itemOpts, schemabuilder.FetchObjectFromKeys(func(ctx context.Context, args struct{ Keys []*Item }) []*Item {
+			out := make([]*Item, len(args.Keys))
+			for i, k := range args.Keys {
+				out[i] = &Item{A: k.A, W: worldOf(ctx)}
+			}
+			return out
+		}))
+	}
 	objs := map[string]*schemabuilder.Object{
 		"Query": s.Query(),
-		"Node":  s.Object("Node", Node{}),
-		"Leaf":  s.Object("Leaf", Leaf{}),
-		"Item":  s.Object("Item", Item{}),
+		"Node":  s.Object("Node", Node{}, nodeOpts...),
+		"Leaf":  s.Object("Leaf", Leaf{}, leafOpts...),
+		"Item":  s.Object("Item", Item{}, itemOpts...),
 	}
 	objs["Leaf"].Key("id")
 	for _, tn := range []string{"Query", "Node", "Leaf", "Item"} {
